@@ -11,8 +11,11 @@ import (
 	"io"
 	"os"
 	"path/filepath"
+	"runtime"
 	"sort"
 	"sync"
+	"sync/atomic"
+	"time"
 
 	"google.golang.org/grpc/grpclog"
 )
@@ -181,6 +184,42 @@ func Knob(name string, def int) int {
 		}
 	}
 	return def
+}
+
+// Watchdog state shared with engines: a library call that does not return within 3 s of real time
+// (normal: microseconds) is a hang. Engines set InCall around library calls and bump Beat.
+var (
+	Beat     atomic.Int64
+	InCall   atomic.Bool
+	CallDesc atomic.Value // string
+	OnHang   atomic.Value // func(desc string): writes the replay of the running case
+)
+
+// StartWatchdog runs outside every synctest bubble (real time).
+func StartWatchdog(prop func() string) {
+	go func() {
+		last, since := int64(-1), time.Now()
+		for {
+			time.Sleep(200 * time.Millisecond)
+			n := Beat.Load()
+			if !InCall.Load() || n != last {
+				last, since = n, time.Now()
+				continue
+			}
+			if time.Since(since) < 3*time.Second {
+				continue
+			}
+			desc, _ := CallDesc.Load().(string)
+			if f, ok := OnHang.Load().(func(string)); ok && f != nil {
+				f(desc)
+			}
+			buf := make([]byte, 1<<20)
+			buf = buf[:runtime.Stack(buf, true)]
+			fmt.Printf("HANG property=%s during %s\n%s\n", prop(), desc, buf)
+			Flush()
+			os.Exit(3)
+		}
+	}()
 }
 
 // Quiet silences grpclog: some defects log an error per loop iteration forever.
